@@ -9,9 +9,10 @@
     std the Unix implementation leans on ([from_pathname], [from_abstract_name],
     [as_pathname], [as_abstract_name]) are modelled by what they accept and return.
 
-    [variant]: [AsIs] is the code in /repo; [Fixed] is the code after proposed_fix_c16.diff
-    (Unix only: the storage carries the address length, [init] drops the terminating NUL of a
-    pathname). Executable definitions only; proofs are in Proofs/SockAddrProofs.v. *)
+    [variant]: [Fixed] is the code in /repo (after the repairs of H7, H8 and H29: the Unix storage
+    carries the address length, [init] drops the terminating NUL of a pathname and reads a length
+    below [sizeof(sa_family_t)] as the unnamed address); [AsIs] is the code before those repairs,
+    kept for the refutation lemmas. Executable definitions only; proofs are in Proofs/SockAddrProofs.v. *)
 From A10 Require Import Base.Word Base.Run.
 
 (** * Constants (libc, x86-64 Linux). The harness asserts them against libc at start-up. *)
@@ -228,7 +229,7 @@ Definition run_sacase_v (v : variant) (c : sacase) : list Z :=
   | CaseRaw i bytes len => enc_addr (init v i bytes len)
   end.
 
-(** The model wired into the check: the code as it is in /repo. *)
+(** The code before the repairs (refutation lemmas only). *)
 Definition run_sacase : sacase -> list Z := run_sacase_v AsIs.
-(** To be wired in once proposed_fix_c16.diff is applied. *)
+(** The model wired into the check: the code as it is in /repo. *)
 Definition run_sacase_fixed : sacase -> list Z := run_sacase_v Fixed.
